@@ -87,7 +87,9 @@ type lworld struct {
 	kv     *simdisk.SimKV
 	parent map[common.Hash]common.Hash // live diff layers -> parent root
 	disk   common.Hash
-	epoch  int // tree changes
+	// genDisk: the disk layer is still the one the initial generation produced
+	genDisk bool
+	epoch   int // tree changes
 	slots  [4]*heldIter
 }
 
@@ -150,7 +152,7 @@ func (lw *lworld) capModel(root common.Hash, n int) (expectErr bool) {
 		return true
 	}
 	if n == 0 {
-		lw.disk = root
+		lw.disk, lw.genDisk = root, false
 		lw.parent = map[common.Hash]common.Hash{}
 		lw.epoch++
 		return false
@@ -164,7 +166,29 @@ func (lw *lworld) capModel(root common.Hash, n int) (expectErr bool) {
 		diff = p
 	}
 	P := lw.parent[diff]
-	if P == lw.disk || lw.parent[P] == lw.disk {
+	if P == lw.disk {
+		return false
+	}
+	if lw.genDisk {
+		// The disk layer produced by the initial generation keeps its (closed)
+		// cancel channel, which Tree.cap takes for "a snapshot is being generated":
+		// the accumulator is then always merged into the disk. Only diff and its
+		// descendants survive on top of the new disk layer P.
+		keep := map[common.Hash]common.Hash{}
+		for x, px := range lw.parent {
+			for c := x; c != lw.disk; c = lw.parent[c] {
+				if c == diff {
+					keep[x] = px
+					break
+				}
+			}
+		}
+		keep[diff] = P
+		lw.parent, lw.disk, lw.genDisk = keep, P, false
+		lw.epoch++
+		return false
+	}
+	if lw.parent[P] == lw.disk {
 		return false // nothing below to flatten into
 	}
 	stale := map[common.Hash]bool{}
@@ -433,7 +457,7 @@ func runLegacy(t *testing.T, p *Plan) *simcore.Result {
 	res := simcore.NewResult()
 	rn := newRunner(p, nil, res)
 	kv := simdisk.NewSimKV(nil)
-	lw := &lworld{rn: rn, kv: kv, parent: map[common.Hash]common.Hash{}, disk: types.EmptyRootHash}
+	lw := &lworld{rn: rn, kv: kv, parent: map[common.Hash]common.Hash{}, disk: types.EmptyRootHash, genDisk: true}
 	disk := rawdb.NewDatabase(kv)
 	if v := guard("legacy-open", func() {
 		tdb := triedb.NewDatabase(disk, nil)
